@@ -53,6 +53,9 @@ use super::{
 };
 use crate::state::StateReceiver;
 
+#[cfg(all(test, feature = "verif"))]
+mod verif_c07;
+
 pub(super) struct VerifiedBlobs {
     celestia_height: u64,
     header_blobs: HashMap<block::Hash, SubmittedMetadata>,
